@@ -109,7 +109,8 @@ func genSendTok(r *Rng) string {
 }
 
 var respModes = []string{"match", "match", "match", "other", "prefix", "emptymap", "emptyack", "extrabefore", "extraafter", "garbage", "nonmap",
-	"binack", "trunc", "trailing", "eof", "sil", "dupack", "dupack2", "extralong", "extraafter", "extralong"}
+	"binack", "trunc", "trailing", "eof", "sil", "dupack", "dupack2", "extralong", "extraafter", "extralong",
+	"extracut1", "extracut3", "extracut6", "extracut11", "extracut13", "extracut14"}
 var pongModes = []string{"honest", "honest", "honest", "authfalse", "wrongkey", "wrongsalt", "wrongnonce", "wronghost", "reflect", "replay",
 	"emptydigest", "truncdigest", "trunc", "garbage", "upper", "none", "sil"}
 var heloModes = []string{"std", "std", "std", "std", "nilopts", "garbage", "trunc", "none", "arity3", "extra", "n=", "n=00ff"}
@@ -209,9 +210,15 @@ func genTcp(o *Out, r *Rng, n int, tier string) {
 		st := 0
 		// most sequences start with the ordinary opening so that the later operations are reached
 		if r.Chance(70) {
-			args = append(args, "CON(ok;f)")
+			// every fourth opening connection will report an error from Close
+			args = append(args, fmt.Sprintf("CON(ok;%s)", renderBool(r.Chance(25))))
 			if !strings.HasPrefix(args[0], "CFG(-") && r.Chance(80) {
 				args = append(args, "HS(std;honest;-)")
+				if r.Chance(25) {
+					// lifecycle step right after a good handshake, then traffic
+					args = append(args, []string{"REC(ok;f)", "REC(ok;t)", "DIS", "REC(fail;f)"}[r.Intn(4)])
+					args = append(args, fmt.Sprintf("RAW(%s;-)", hx(r.Bytes(1+r.Intn(8)))))
+				}
 			}
 		}
 		var sends []string
@@ -230,6 +237,17 @@ func genTcp(o *Out, r *Rng, n int, tier string) {
 				}
 				args = append(args, fmt.Sprintf("SND(%s;%s;-)", tok, second))
 			}
+		}
+		if r.Chance(8) {
+			// a packed helper call that fails on an unencodable record after a good entry, then a good one
+			tag := hx(genTag(r, "quick"))
+			good := func() string {
+				return fmt.Sprintf("E(%s;%s)", tokInstant(genGoTime(r)), tokVal(nMap(nStr([]byte("k")), nStr(r.Bytes(1+r.Intn(20))))))
+			}
+			badE := fmt.Sprintf("E(%s;%s)", tokInstant(genGoTime(r)), tokVal(nMap(nStr([]byte("k")), &Node{K: KBad, W: r.Intn(3)})))
+			h := []string{"SendPacked", "SendCompressed"}
+			args = append(args, fmt.Sprintf("HLP(%s;%s;L(%s;%s))", h[r.Intn(2)], tag, good(), badE))
+			args = append(args, fmt.Sprintf("HLP(%s;%s;L(%s))", h[r.Intn(2)], tag, good()))
 		}
 		for j := 0; j < ln; j++ {
 			a := genTcpOp(r, &st)
